@@ -376,4 +376,136 @@ theorem splitArgs_ren (σ : Sh) (f : FuncVal) (args : List Obj) :
   | true => simp only [if_true]; rw [expandLast_ren, cutArgs_ren]
   | false => rfl
 
+def renX (σ : Sh) : Except Obj Nat → Except Obj Nat
+  | .ok n => .ok (sh σ n)
+  | .error e => .error (ren σ e)
+
+theorem sim_extendFunctionEnv {σ : Sh} {s t : St} (hR : StR σ s t) (f : FuncVal) (args : List Obj) :
+    SimAt σ (extendFunctionEnv (renFn σ f) (renL σ args)) (extendFunctionEnv f args) s t
+      (fun a b => a = renX σ b) := by
+  unfold extendFunctionEnv
+  refine sim_curEnv_bind hR ?_
+  refine sim_getFrame_bind hR t.cur ?_
+  intro cfs cft hcte _ hcfr
+  dsimp only
+  have hk : (renFn σ f).key = f.key := rfl
+  have hv : (renFn σ f).variadic = f.variadic := rfl
+  have he : (renFn σ f).env = sh σ f.env := rfl
+  rw [hk, hv, he, hcfr.cacheKey]
+  have hpar : (if (cft.cacheKey == f.key) = true then sh σ t.cur else sh σ f.env) =
+      sh σ (if (cft.cacheKey == f.key) = true then t.cur else f.env) := by split <;> rfl
+  rw [hpar]
+  generalize (if (cft.cacheKey == f.key) = true then t.cur else f.env) = parent
+  refine sim_getFrame_bind hR parent ?_
+  intro pfs pft hpte _ hpfr
+  rw [hpfr.depth]
+  refine SimAt.bind (sim_newFrame hR ?_ ?_) ?_
+  · exact ⟨rfl, rfl, rfl, rfl, rfl, fun _ => ⟨rfl, rfl, rfl⟩⟩
+  · refine ⟨?_, fun k e n h => by cases h⟩
+    intro o ho
+    cases ho
+    exact lt_of_frame hpte
+  rintro _ nenv s1 t1 hR1 rfl
+  -- everything after the (dereferenced) argument list is known
+  have hrest : ∀ (A : List Obj) (s2 t2 : St), StR σ s2 t2 →
+      SimAt σ
+        (if ((splitArgs (renFn σ f) (renL σ A)).2.fst.length != (splitArgs (renFn σ f) (renL σ A)).fst.length) = true then
+            pure (Except.error (err "wrong number of arguments"))
+          else do
+            let __do_lift ← bindParams (sh σ nenv)
+              ((splitArgs (renFn σ f) (renL σ A)).fst.zip (splitArgs (renFn σ f) (renL σ A)).2.fst)
+            match __do_lift with
+              | some oerr => pure (Except.error oerr)
+              | none =>
+                if f.variadic = true then do
+                  let _ ← setNoChecks (sh σ nenv) ".." (newArray (splitArgs (renFn σ f) (renL σ A)).2.snd) true
+                  pure (Except.ok (sh σ nenv))
+                else pure (Except.ok (sh σ nenv)))
+        (if ((splitArgs f A).2.fst.length != (splitArgs f A).fst.length) = true then
+            pure (Except.error (err "wrong number of arguments"))
+          else do
+            let __do_lift ← bindParams nenv ((splitArgs f A).fst.zip (splitArgs f A).2.fst)
+            match __do_lift with
+              | some oerr => pure (Except.error oerr)
+              | none =>
+                if f.variadic = true then do
+                  let _ ← setNoChecks nenv ".." (newArray (splitArgs f A).2.snd) true
+                  pure (Except.ok nenv)
+                else pure (Except.ok nenv)) s2 t2 (fun a b => a = renX σ b) := by
+    intro A s2 t2 hR2
+    rw [splitArgs_ren]
+    dsimp only
+    rw [renL_length, zip_ren]
+    refine SimAt.ite (fun _ => SimAt.pure hR2 rfl) (fun _ => ?_)
+    refine SimAt.bind (sim_bindParams nenv _ s2 t2 hR2) ?_
+    rintro _ r s3 t3 hR3 rfl
+    cases r with
+    | some oerr => exact SimAt.pure hR3 rfl
+    | none =>
+      simp only [Option.map]
+      refine SimAt.ite (fun _ => ?_) (fun _ => SimAt.pure hR3 rfl)
+      have := sim_setNoChecks hR3 nenv ".." (newArray (splitArgs f A).2.snd) true
+      simp only [newArray, ren] at this
+      refine SimAt.bind this ?_
+      intro _ _ s4 t4 hR4 _
+      exact SimAt.pure hR4 rfl
+  refine SimAt.ite (fun _ => ?_) (fun _ => ?_)
+  · rw [renL_getLast?]
+    cases hl : args.getLast? with
+    | none =>
+      simp only [Option.map]
+      refine SimAt.bind_read (runM_pure _ s1) (runM_pure _ t1) ?_
+      exact hrest args s1 t1 hR1
+    | some last =>
+      simp only [Option.map]
+      refine SimAt.bind (sim_valueOf hR1 last) ?_
+      rintro _ v s2 t2 hR2 ⟨rfl, _⟩
+      refine SimAt.bind_read (runM_pure _ s2) (runM_pure _ t2) ?_
+      have := hrest (args.dropLast ++ [v]) s2 t2 hR2
+      rw [renL_append] at this
+      simp only [renL] at this
+      rw [renL_dropLast]
+      exact this
+  · refine SimAt.bind_read (runM_pure _ s1) (runM_pure _ t1) ?_
+    exact hrest args s1 t1 hR1
+
+theorem sim_finishCall {σ : Sh} {s t : St} (hR : StR σ s t) (f : FuncVal) (args : List Obj) (curState before after : Nat)
+    (cantCache : Bool) (res : Obj) (output : List UInt8) :
+    SimAt σ (finishCall (renFn σ f) (renL σ args) (sh σ curState) before after cantCache (ren σ res) output)
+      (finishCall f args curState before after cantCache res output) s t (QO σ) := by
+  unfold finishCall
+  have hk : (renFn σ f).key = f.key := rfl
+  rw [hk, ren_isError, holdsFunc_ren]
+  have hjp : ∀ s1 t1, StR σ s1 t1 →
+      SimAt σ
+        (if (after != before) = true then do
+            triggerNoCache (sh σ curState)
+            pure (ren σ res)
+          else
+            if res.isError = true then pure (ren σ res)
+            else
+              if holdsFunc res = true then pure (ren σ res)
+              else do
+                cacheSet f.key (renL σ args) (ren σ res) output
+                pure (ren σ res))
+        (if (after != before) = true then do
+            triggerNoCache curState
+            pure res
+          else
+            if res.isError = true then pure res
+            else
+              if holdsFunc res = true then pure res
+              else do
+                cacheSet f.key args res output
+                pure res) s1 t1 (QO σ) := by
+    intro s1 t1 hR1
+    refine SimAt.ite (fun _ => ?_) (fun _ => ?_)
+    · exact SimAt.bind (sim_triggerNoCache hR1 curState) (fun _ _ s2 t2 hR2 _ => SimAt.pure hR2 rfl)
+    · refine SimAt.ite (fun _ => SimAt.pure hR1 rfl) (fun _ => ?_)
+      refine SimAt.ite (fun _ => SimAt.pure hR1 rfl) (fun _ => ?_)
+      exact SimAt.bind (sim_cacheSet hR1 f.key args res output) (fun _ _ s2 t2 hR2 _ => SimAt.pure hR2 rfl)
+  dsimp only
+  refine SimAt.ite (fun _ => ?_) (fun _ => hjp s t hR)
+  exact SimAt.bind (sim_writeOut hR output) (fun _ _ s1 t1 hR1 _ => hjp s1 t1 hR1)
+
 end Grol.R
